@@ -311,8 +311,17 @@ def load_baseline():
         return json.load(f)
 
 
+def out_dir():
+    return os.environ.get('VERIF_OUT_DIR') or os.path.join(VERIF, 'out')
+
+
+def evidence_dir():
+    # checks run against a scratch tree (seeded changes, self-tests) must not overwrite the evidence of /repo
+    return os.environ.get('VERIF_EVIDENCE_DIR') or os.path.join(VERIF, 'evidence')
+
+
 def replay_path(prop, name):
-    d = os.path.join(VERIF, 'out', 'replay', prop)
+    d = os.path.join(out_dir(), 'replay', prop)
     os.makedirs(d, exist_ok=True)
     safe = ''.join(ch if ch.isalnum() or ch in '._-' else '_' for ch in name)
     return os.path.join(d, safe + '.json')
@@ -580,8 +589,8 @@ def finish(report, level_text=None):
         },
     }
     ev['coverage'].update(report.extra)
-    os.makedirs(os.path.join(VERIF, 'evidence'), exist_ok=True)
-    with open(os.path.join(VERIF, 'evidence', prop + '.json'), 'w') as f:
+    os.makedirs(evidence_dir(), exist_ok=True)
+    with open(os.path.join(evidence_dir(), prop + '.json'), 'w') as f:
         json.dump(ev, f, indent=1, default=repr)
     print('%s: obligations=%d discharged=%d backends=%s bounded_cases=%d violations=%d undecided=%d known=%d wall=%.1fs exit=%d'
           % (prop, n_ob, n_dis, by_backend, sum(b['cases'] for b in report.bounded), len(report.violations), len(report.undecided),
